@@ -89,4 +89,419 @@ example : (run { state := .new } [(false, .checking, .new), (false, .connected, 
     (false, .connected, .connected), (false, .connected, .connected), (true, .closed, .closed)]).notified
     = [.connecting, .connected, .closed] := by decide
 
+/-! ## The call sites (live tier)
+
+The theorems above are about `updateConnectionState` as a function of its arguments.  The ones below are about
+the transition system `ConnState.step` of the places that call it (ICE state handler, `startTransports` after the
+DTLS start, `close()`), for ALL finite sequences of such steps.  Each step is atomic: the window between
+computing the aggregate and taking `pc.mu` inside `updateConnectionState`, and its race with `Close`, is C21's
+model, not this one. -/
+
+@[simp] theorem sync_closed (s : Sys) : s.sync.closed = s.closed := rfl
+@[simp] theorem sync_ice (s : Sys) : s.sync.ice = s.ice := rfl
+@[simp] theorem sync_dtls (s : Sys) : s.sync.dtls = s.dtls := rfl
+
+/-- An update stores the aggregate of the values it was called with. -/
+theorem sync_conn (s : Sys) : s.sync.conn = aggregate s.closed s.ice s.dtls := by
+  unfold Sys.sync update
+  simp only
+  split
+  · rename_i h; exact h
+  · rfl
+
+/-- … and tells the handler exactly when that differs from what was stored. -/
+theorem sync_notes (s : Sys) :
+    s.sync.notes = s.notes ++ (if aggregate s.closed s.ice s.dtls = s.conn then [] else [aggregate s.closed s.ice s.dtls]) := by
+  unfold Sys.sync update
+  simp only
+  split
+  · rename_i h; simp [h.symm]
+  · rename_i h
+    have : ¬ aggregate s.closed s.ice s.dtls = s.conn := fun e => h e.symm
+    simp [this]
+
+/-- Steps that end in a call of `updateConnectionState`. -/
+def updates (s : Sys) : Act → Bool
+  | .ice i => i != .unknown
+  | .dtlsBegin => false
+  | .close => !s.closed
+  | _ => true
+
+/-- **At every update** the stored state is the aggregate of the closed flag and the transport states as they
+    are at that moment — from any state whatsoever, reachable or not. -/
+theorem C22_sites_every_update_stores_aggregate (s : Sys) (a : Act) (h : updates s a = true) :
+    (step s a).conn = aggregate (step s a).closed (step s a).ice (step s a).dtls := by
+  cases a with
+  | ice i =>
+    have hi : i ≠ .unknown := by simpa [updates] using h
+    simp [step, hi, sync_conn]
+  | dtlsBegin => simp [updates] at h
+  | dtlsConnected => simp [step, sync_conn]
+  | dtlsStartFails => simp [step, sync_conn]
+  | dtlsStartRefused => simp [step, sync_conn]
+  | close =>
+    have hc : s.closed = false := by simpa [updates] using h
+    simp [step, hc, sync_conn]
+
+example : updates Sys.init .dtlsStartFails = true := rfl
+
+theorem sync_notes' (s : Sys) :
+    s.sync.notes = s.notes ++ (if s.sync.conn = s.conn then [] else [s.sync.conn]) := by
+  rw [sync_notes]
+  simp only [sync_conn]
+
+/-- The handler is told exactly the changes of the stored state, one step at a time. -/
+theorem step_notes (s : Sys) (a : Act) :
+    (step s a).notes = s.notes ++ (if (step s a).conn = s.conn then [] else [(step s a).conn]) := by
+  cases a with
+  | ice i =>
+    by_cases hi : i = .unknown
+    · simp [step, hi]
+    · simp only [step, hi, if_false]; exact sync_notes' _
+  | dtlsBegin => simp only [step]; split <;> simp
+  | dtlsConnected => exact sync_notes' _
+  | dtlsStartFails => exact sync_notes' _
+  | dtlsStartRefused => exact sync_notes' _
+  | close =>
+    simp only [step]
+    split
+    · simp
+    · exact sync_notes' _
+
+/-- **The notification log is exactly the sequence of distinct successive values of the stored state**, for
+    every sequence of call-site steps from every state: nothing is reported twice, nothing is skipped. -/
+theorem C22_sites_log_is_changes (s : Sys) (as : List Act) :
+    (exec s as).notes = s.notes ++ changes s.conn (history s as) := by
+  induction as generalizing s with
+  | nil => simp [exec, history, changes]
+  | cons a as ih =>
+    have := ih (step s a)
+    simp only [exec, List.foldl_cons] at this ⊢
+    rw [this, step_notes s a]
+    simp only [history, changes]
+    split <;> simp_all
+
+/-- For a fresh PeerConnection: the handler has seen precisely the changes of `ConnectionState()`. -/
+theorem C22_sites_log_is_changes_from_new (as : List Act) :
+    (exec Sys.init as).notes = changes .new (history Sys.init as) := by
+  simpa [Sys.init] using C22_sites_log_is_changes Sys.init as
+
+/-- nothing follows `closed` in a log -/
+def closedLast (l : List Pc) : Bool := (l.dropWhile (· != .closed)).length ≤ 1
+
+/-- The invariant of the call sites. -/
+structure SiteInv (s : Sys) : Prop where
+  /-- the stored state is the aggregate of the current values, except that the un-notified `new → connecting`
+      of the DTLS transport may not have been taken into account yet -/
+  agg : s.conn = aggregate s.closed s.ice s.dtls ∨ (s.dtls = .connecting ∧ s.conn = aggregate s.closed s.ice .new)
+  /-- the log, prefixed by the initial state, has no two equal neighbours and ends in the stored state -/
+  norep : noRepeat (.new :: s.notes) = true
+  last : (Pc.new :: s.notes).getLast? = some s.conn
+  named : s.ice.named = true ∧ s.dtls.named = true
+  /-- `closed` is reported only for a closed PeerConnection, and then it is the last thing reported -/
+  noClosed : s.closed = false → Pc.closed ∉ s.notes
+  closedLast : closedLast s.notes = true
+
+private theorem aggregate_closed_iff (c : Bool) (i : Ice) (d : Dtls) : aggregate c i d = .closed ↔ c = true := by
+  cases c <;> cases i <;> cases d <;> decide
+
+private theorem dropWhile_not_mem (l : List Pc) (h : Pc.closed ∉ l) : l.dropWhile (· != .closed) = [] := by
+  induction l with
+  | nil => rfl
+  | cons a t ih =>
+    have ha : a ≠ .closed := fun e => h (by simp [e])
+    have ht : Pc.closed ∉ t := fun e => h (by simp [e])
+    rw [List.dropWhile_cons]; simp [ha, ih ht]
+
+private theorem closedLast_append (l : List Pc) (c : Pc) (h : Pc.closed ∉ l) : closedLast (l ++ [c]) = true := by
+  unfold closedLast
+  induction l with
+  | nil => by_cases hc : c = .closed <;> simp [List.dropWhile, hc]
+  | cons a t ih =>
+    have ha : a ≠ .closed := fun e => h (by simp [e])
+    have ht : Pc.closed ∉ t := fun e => h (by simp [e])
+    rw [List.cons_append, List.dropWhile_cons]; simpa [ha] using ih ht
+
+private theorem norep_snoc (l : List Pc) (c : Pc) (last : Pc) (hl : (Pc.new :: l).getLast? = some last)
+    (hne : last ≠ c) (h : noRepeat (.new :: l) = true) : noRepeat (.new :: (l ++ [c])) = true := by
+  have := noRepeat_append_ne (.new :: l) last c hl hne h
+  simpa using this
+
+/-- An update from a state satisfying the invariant's log clauses re-establishes everything, provided `closed`
+    was never reported while the flag is down. -/
+private theorem sync_inv (s : Sys) (norep : noRepeat (.new :: s.notes) = true)
+    (last : (Pc.new :: s.notes).getLast? = some s.conn) (named : s.ice.named = true ∧ s.dtls.named = true)
+    (noClosed : s.closed = false → Pc.closed ∉ s.notes) (cl : closedLast s.notes = true)
+    (hclosedconn : s.closed = true → Pc.closed ∈ s.notes → s.conn = .closed) :
+    SiteInv s.sync := by
+  by_cases hEq : aggregate s.closed s.ice s.dtls = s.conn
+  · have hn : s.sync.notes = s.notes := by rw [sync_notes]; simp [hEq]
+    have hc : s.sync.conn = s.conn := by rw [sync_conn]; exact hEq
+    exact { agg := Or.inl (by rw [sync_conn]; rfl), norep := by rw [hn]; exact norep,
+            last := by rw [hn, hc]; exact last, named := named,
+            noClosed := by rw [hn]; exact noClosed, closedLast := by rw [hn]; exact cl }
+  · have hn : s.sync.notes = s.notes ++ [aggregate s.closed s.ice s.dtls] := by rw [sync_notes]; simp [hEq]
+    have hne : s.conn ≠ aggregate s.closed s.ice s.dtls := fun e => hEq e.symm
+    refine { agg := Or.inl (by rw [sync_conn]; rfl), norep := ?_, last := ?_, named := named,
+             noClosed := ?_, closedLast := ?_ }
+    · rw [hn]; exact norep_snoc _ _ _ last hne norep
+    · rw [hn, sync_conn, ← List.cons_append, List.getLast?_append]; simp
+    · intro hc
+      have hc' : s.closed = false := hc
+      rw [hn]
+      intro hmem
+      rcases List.mem_append.mp hmem with h | h
+      · exact noClosed hc' h
+      · have : aggregate s.closed s.ice s.dtls = .closed := by
+          have := List.mem_singleton.mp h
+          exact this.symm
+        rw [aggregate_closed_iff] at this
+        rw [this] at hc'; cases hc'
+    · rw [hn]
+      by_cases hc : s.closed = true
+      · -- the flag is up and the stored state differs from `closed`: `closed` was not reported before
+        apply closedLast_append
+        intro hmem
+        have := hclosedconn hc hmem
+        apply hne
+        rw [this]; exact ((aggregate_closed_iff _ _ _).mpr hc).symm
+      · have hc' : s.closed = false := by simpa using hc
+        exact closedLast_append _ _ (noClosed hc')
+
+theorem step_preserves (s : Sys) (a : Act) (h : SiteInv s) : SiteInv (step s a) := by
+  have hcc : ∀ (i : Ice) (d : Dtls), s.closed = true → s.conn = .closed := by
+    intro _ _ hc
+    rcases h.agg with e | ⟨_, e⟩ <;> rw [e] <;> exact (aggregate_closed_iff _ _ _).mpr hc
+  cases a with
+  | ice i =>
+    by_cases hi : i = .unknown
+    · simpa [step, hi] using h
+    · simp only [step, hi, if_false]
+      apply sync_inv
+      · exact h.norep
+      · exact h.last
+      · exact ⟨by cases i <;> first | rfl | exact absurd rfl hi, h.named.2⟩
+      · exact h.noClosed
+      · exact h.closedLast
+      · exact fun hc _ => hcc .new .new hc
+  | dtlsBegin =>
+    simp only [step]
+    split
+    · rename_i hd
+      refine { agg := Or.inr ⟨rfl, ?_⟩, norep := h.norep, last := h.last, named := ⟨h.named.1, rfl⟩,
+               noClosed := h.noClosed, closedLast := h.closedLast }
+      rcases h.agg with e | ⟨hd', _⟩
+      · simpa [hd] using e
+      · rw [hd] at hd'; cases hd'
+    · exact h
+  | dtlsConnected =>
+    simp only [step]
+    exact sync_inv _ h.norep h.last ⟨h.named.1, rfl⟩ h.noClosed h.closedLast (fun hc _ => hcc .new .new hc)
+  | dtlsStartFails =>
+    simp only [step]
+    exact sync_inv _ h.norep h.last ⟨h.named.1, rfl⟩ h.noClosed h.closedLast (fun hc _ => hcc .new .new hc)
+  | dtlsStartRefused =>
+    simp only [step]
+    exact sync_inv _ h.norep h.last h.named h.noClosed h.closedLast (fun hc _ => hcc .new .new hc)
+  | close =>
+    simp only [step]
+    split
+    · exact h
+    · rename_i hc
+      have hc' : s.closed = false := by simpa using hc
+      apply sync_inv
+      · exact h.norep
+      · exact h.last
+      · exact ⟨h.named.1, rfl⟩
+      · intro e; cases e
+      · exact h.closedLast
+      · intro _ hmem; exact absurd hmem (h.noClosed hc')
+
+/-- **Invariant of the call sites**, for all sequences of ICE state changes, DTLS starts (succeeding, failing,
+    refused) and `Close` calls, by induction over `Reachable`. -/
+theorem C22_sites_invariant (s : Sys) (h : Reachable s) : SiteInv s := by
+  induction h with
+  | init =>
+    exact { agg := Or.inl (by decide), norep := by decide, last := by decide, named := by decide,
+            noClosed := (by intro _ h; cases h), closedLast := by decide }
+  | step a _ ih => exact step_preserves _ a ih
+
+/-- `Reachable` is "after some finite sequence of steps from a fresh PeerConnection". -/
+theorem C22_sites_reachable_iff (s : Sys) : Reachable s ↔ ∃ as, s = exec Sys.init as := by
+  constructor
+  · intro h
+    induction h with
+    | init => exact ⟨[], rfl⟩
+    | step a _ ih =>
+      obtain ⟨as, e⟩ := ih
+      exact ⟨as ++ [a], by simp [exec, List.foldl_append, e]⟩
+  · rintro ⟨as, e⟩
+    subst e
+    have : ∀ (s : Sys), Reachable s → Reachable (exec s as) := by
+      induction as with
+      | nil => intro s h; exact h
+      | cons a as ih => intro s h; exact ih _ (Reachable.step a h)
+    exact this _ Reachable.init
+
+/-- **Whenever no update is outstanding, `ConnectionState()` is the aggregate of the CURRENT closed flag, ICE
+    connection state and DTLS transport state** — whatever sequence of transport events and `Close` calls led
+    there.  This is what the live tier observes on settled loopback pairs. -/
+theorem C22_sites_settled_is_aggregate (s : Sys) (h : Reachable s) (hq : s.quiescent = true) :
+    s.conn = aggregate s.closed s.ice s.dtls := by
+  rcases (C22_sites_invariant s h).agg with e | ⟨hd, e⟩
+  · exact e
+  · rw [e, hd]
+    have hq' : s.closed = true ∨ (s.ice ≠ .new ∧ s.ice ≠ .closed) := by
+      simpa [Sys.quiescent, hd] using hq
+    rcases hq' with hc | ⟨h1, h2⟩
+    · rw [hc]; rfl
+    · cases hs : s.closed <;> cases hi : s.ice <;> simp_all [aggregate]
+
+/-- … hence the W3C value, stated with the independently written precedence list. -/
+theorem C22_sites_settled_is_w3c (s : Sys) (h : Reachable s) (hq : s.quiescent = true) :
+    w3c s.closed s.ice s.dtls = some s.conn := by
+  have inv := C22_sites_invariant s h
+  rw [C22_sites_settled_is_aggregate s h hq]
+  exact C22_aggregate_is_w3c _ _ _ inv.named.1 inv.named.2
+
+/-- The hypothesis `quiescent` is needed and excludes only the un-notified `new → connecting` of the DTLS
+    transport while the stored ICE state is still `new`: `DTLSTransport.Start` changes the DTLS state without
+    an update of its own (the PeerConnection registers no DTLS state handler).  The next update of any kind
+    repairs it (`C22_sites_every_update_stores_aggregate` holds from every state). -/
+theorem C22_sites_lag_without_quiescence :
+    ∃ s, Reachable s ∧ s.quiescent = false ∧ s.conn ≠ aggregate s.closed s.ice s.dtls :=
+  ⟨step Sys.init .dtlsBegin, Reachable.step _ Reachable.init, by decide, by decide⟩
+
+/-- Once closed, always `closed`, and the handler hears nothing more. -/
+theorem C22_sites_closed_is_final (s : Sys) (h : Reachable s) (hc : s.closed = true) (as : List Act) :
+    (exec s as).conn = .closed ∧ (exec s as).notes = s.notes ∧ (exec s as).closed = true := by
+  induction as generalizing s with
+  | nil =>
+    refine ⟨?_, rfl, hc⟩
+    rcases (C22_sites_invariant s h).agg with e | ⟨_, e⟩ <;> simp [exec, e, hc, aggregate]
+  | cons a as ih =>
+    have hr : Reachable (step s a) := Reachable.step a h
+    have hconn : s.conn = .closed := by
+      rcases (C22_sites_invariant s h).agg with e | ⟨_, e⟩ <;> simp [e, hc, aggregate]
+    have hcl : (step s a).closed = true := by
+      cases a <;> simp [step, hc] <;> (try split) <;> simp [hc]
+    have hconn' : (step s a).conn = .closed := by
+      rcases (C22_sites_invariant _ hr).agg with e | ⟨_, e⟩ <;> simp [e, hcl, aggregate]
+    have hn : (step s a).notes = s.notes := by
+      rw [step_notes, hconn', hconn]; simp
+    have := ih (step s a) hr hcl
+    simp only [exec, List.foldl_cons] at this ⊢
+    rw [← hn]; exact this
+
+/-- **The live judge accepts every settled state the call sites can produce**: the verdict function used by
+    `Drv.C22.judge` for `live` observations is `none` on every reachable quiescent state.  (So a rejection by the
+    judge on the real system is a behaviour the model of the call sites does not have.) -/
+theorem C22_sites_judge_accepts_settled (s : Sys) (h : Reachable s) (hq : s.quiescent = true) :
+    liveVerdict s.closed s.ice s.dtls s.conn s.notes = none := by
+  have inv := C22_sites_invariant s h
+  have hw := C22_sites_settled_is_w3c s h hq
+  have hcu : s.conn ≠ .unknown := by
+    rw [C22_sites_settled_is_aggregate s h hq]
+    cases s.closed <;> cases s.ice <;> cases s.dtls <;> decide
+  have hcl : ¬ ((s.notes.dropWhile (· != .closed)).length > 1) := by
+    have := inv.closedLast
+    simp only [closedLast, decide_eq_true_eq] at this
+    omega
+  unfold liveVerdict
+  rw [if_neg (by simp [hw])]
+  rw [if_neg (by simpa using hcu)]
+  rw [if_neg hcl]
+  rw [if_neg (by simp [inv.norep])]
+  have hl := inv.last
+  cases hn : s.notes.getLast? with
+  | none =>
+    have : s.notes = [] := by simpa using hn
+    simp [this] at hl
+    simp [hl.symm]
+  | some l =>
+    have : (Pc.new :: s.notes).getLast? = some l := by
+      rw [List.getLast?_cons]; simp [hn]
+    rw [this] at hl
+    simp at hl
+    simp [hl]
+
+-- non-vacuity: ICE connects, the DTLS handshake fails (the seeded C22-3 scenario), later Close
+example : (exec Sys.init [.ice .checking, .ice .connected, .dtlsBegin, .dtlsStartFails, .close, .ice .closed]).notes
+    = [.connecting, .failed, .closed] := by decide
+example : (exec Sys.init [.ice .checking, .ice .connected, .dtlsBegin, .dtlsStartFails]).quiescent = true := by decide
+example : Reachable (exec Sys.init [.ice .checking, .ice .connected, .dtlsBegin, .dtlsConnected]) :=
+  (C22_sites_reachable_iff _).mpr ⟨_, rfl⟩
+example : (exec Sys.init [.ice .checking, .ice .connected, .dtlsBegin, .dtlsConnected, .ice .disconnected, .ice .failed]).notes
+    = [.connecting, .connected, .disconnected, .failed] := by decide
+example : ∃ s, Reachable s ∧ s.closed = true := ⟨step Sys.init .close, Reachable.step _ Reachable.init, by decide⟩
+
+/-! ## Overlapping updates: a recorded finding
+
+With the snapshot made explicit (`Sys2`), "the settled state is the aggregate of the current transport states"
+is FALSE for the unchanged code: an update whose arguments were evaluated earlier can take the lock later and
+replace the newer value.  Observed on the real code by `C22 live staleice 0` (judge key
+`not-w3c-aggregate-stalled-update`; known_findings.json). -/
+
+/-- The property for arbitrary overlap of the call sites' updates: when every caller has finished and no
+    DTLS start is in flight, `ConnectionState()` is the aggregate of the current values. -/
+def C22_sites_Full : Prop :=
+  ∀ as : List Act2, (exec2 {} as).pending = [] → (exec2 {} as).base.quiescent = true →
+    (exec2 {} as).base.conn = aggregate (exec2 {} as).base.closed (exec2 {} as).base.ice (exec2 {} as).base.dtls
+
+/-- Witness: ICE connects; the ICE handler evaluates `(connected, connecting)` and is delayed; the DTLS handshake
+    completes and `startTransports` stores `connected`; the delayed caller then stores `connecting`.  Every caller
+    has finished, ICE and DTLS are connected, the PeerConnection says `connecting` (and told the handler so). -/
+def staleWitness : List Act2 :=
+  [.begin (.ice .checking), .commit 0, .begin .dtlsBegin, .begin (.ice .connected),
+   .begin .dtlsConnected, .commit 1, .commit 0]
+
+theorem C22_sites_counterexample : ¬ C22_sites_Full := by
+  intro h
+  exact absurd (h staleWitness (by decide) (by decide)) (by decide)
+
+example : (exec2 {} staleWitness).base.notes = [.connecting, .connected, .connecting] := by decide
+example : ((exec2 {} staleWitness).base.ice, (exec2 {} staleWitness).base.dtls, (exec2 {} staleWitness).base.conn)
+    = (.connected, .connected, .connecting) := by decide
+
+private theorem step2_serial (s : Sys) (a : Act) :
+    step2 (step2 { base := s, pending := [] } (.begin a)) (.commit 0) = { base := step s a, pending := [] } := by
+  cases a with
+  | ice i =>
+    by_cases hi : i = .unknown
+    · simp [step2, prepare, step, hi]
+    · simp [step2, prepare, step, hi, Sys.sync]
+  | dtlsBegin => by_cases hd : s.dtls = .new <;> simp [step2, prepare, step, hd]
+  | dtlsConnected => simp [step2, prepare, step, Sys.sync]
+  | dtlsStartFails => simp [step2, prepare, step, Sys.sync]
+  | dtlsStartRefused => simp [step2, prepare, step, Sys.sync]
+  | close =>
+    by_cases hc : s.closed = true
+    · simp [step2, prepare, step, hc]
+    · simp [step2, prepare, step, hc, Sys.sync]
+
+/-- Serialized runs of the snapshot system are exactly the runs of the atomic system. -/
+theorem C22_sites_serialized_is_atomic (s : Sys) (as : List Act) :
+    exec2 { base := s, pending := [] } (serialize as) = { base := exec s as, pending := [] } := by
+  induction as generalizing s with
+  | nil => rfl
+  | cons a as ih =>
+    simp only [serialize, exec2, List.foldl_cons, exec] at ih ⊢
+    rw [step2_serial]
+    exact ih (step s a)
+
+/-- **Partial**: the full statement holds for every run in which the call sites' updates do not overlap
+    (hypothesis: the run is `serialize as` — it excludes exactly the overlap the finding needs). -/
+theorem C22_sites_serialized_partial (as : List Act)
+    (hq : (exec2 {} (serialize as)).base.quiescent = true) :
+    (exec2 {} (serialize as)).pending = [] ∧
+    (exec2 {} (serialize as)).base.conn =
+      aggregate (exec2 {} (serialize as)).base.closed (exec2 {} (serialize as)).base.ice (exec2 {} (serialize as)).base.dtls := by
+  have e : exec2 {} (serialize as) = { base := exec Sys.init as, pending := [] } :=
+    C22_sites_serialized_is_atomic Sys.init as
+  rw [e] at hq ⊢
+  exact ⟨rfl, C22_sites_settled_is_aggregate _ ((C22_sites_reachable_iff _).mpr ⟨as, rfl⟩) hq⟩
+
+example : (exec2 {} (serialize [.ice .checking, .ice .connected, .dtlsBegin, .dtlsConnected])).base.quiescent = true := by
+  decide
+
 end WebrtcVerif.C22
